@@ -1,13 +1,12 @@
-// API instantiation sweep, area `when`: async/{when_all,when_any,join}.hpp (+ async/when/*.hpp through them).  C++17-clean.
-// See api_probe.hpp for the conventions.
+// API instantiation sweep, area `when`: async/when_all.hpp (+ async/when/{when,all,all_tuple,join}.hpp through it).  C++17-clean.
+// WhenAny / Join / user-defined strategies are in api_probe_when2.cpp.  See api_probe.hpp for the conventions.
 //
 // Documented constraints that are NOT probed because they are static_asserts of the library (class (b)):
 //   WhenAll / Join with FailPolicy::LastFail ("LastFail policy is not supported by All / AllTuple / Join");
 //   all inputs of one call have the same error type (when::CheckSameError).
-#include <yaclib/async/join.hpp>
 #include <yaclib/async/when_all.hpp>
-#include <yaclib/async/when_any.hpp>
-// the three headers above are the whole include list a user of the combinators needs
+// the header above is the whole include list a user of WhenAll needs
+#include <yaclib/async/run.hpp>
 #include <yaclib/exe/manual.hpp>
 
 #include "api_probe.hpp"
@@ -16,7 +15,6 @@
 #include <array>
 #include <deque>
 #include <tuple>
-#include <variant>
 #include <vector>
 
 #ifndef API_PROBE_SMOKE_ONLY
@@ -87,6 +85,7 @@ void WhenAllTuple() {
   static_assert(std::is_same_v<decltype(a), Future<std::tuple<int, std::string>, E>>);
   auto b = yaclib::WhenAll(Src<Future<int, E>>(), Src<Future<void, E>>(), Src<FutureOn<MoveOnly, E>>());
   static_assert(std::is_same_v<decltype(b), Future<std::tuple<int, yaclib::Unit, MoveOnly>, E>>);
+  // (a tuple of move-only values is fine: std::tuple's copy constructor is constrained)
   auto c = yaclib::WhenAll<FailPolicy::None>(Src<Future<int, E>>(), Src<Future<void, E>>(), Src<FutureOn<MoveOnly, E>>(), Src<Future<Pinned, E>>());
   static_assert(std::is_same_v<decltype(c), Future<std::tuple<Result<int, E>, Result<void, E>, Result<MoveOnly, E>, Result<Pinned, E>>, E>>);
   // shared and unique inputs together, repeated core types
@@ -115,101 +114,28 @@ void WhenAllMixedHandles() {
   Sink(a, b, c, d);
 }
 
-// ---- WhenAny -------------------------------------------------------------------------------------------------------------
-template <FailPolicy F, typename H, typename V, typename E>
-void WhenAnySameF() {
-  auto a = yaclib::WhenAny<F>(Src<H>());
-  auto b = yaclib::WhenAny<F>(Src<H>(), Src<H>());
-  auto c = yaclib::WhenAny<F>(Src<H>(), Src<H>(), Src<H>());
-  static_assert(std::is_same_v<decltype(b), Future<V, E>>);
-  auto v = Vec<H>();
-  auto d = yaclib::WhenAny<F>(v.begin(), v.end());
-  v = Vec<H>();
-  auto e = yaclib::WhenAny<F>(v.begin(), v.size());
-  v = Vec<H>();
-  auto f = yaclib::WhenAny<F>(v.data(), v.size());
-  static_assert(std::is_same_v<decltype(d), Future<V, E>> && std::is_same_v<decltype(e), Future<V, E>>);
-  Sink(a, b, c, d, e, f);
-}
-template <typename H, typename V, typename E>
-void WhenAnySame() {
-  WhenAnySameF<FailPolicy::None, H, V, E>();
-  WhenAnySameF<FailPolicy::FirstFail, H, V, E>();
-  WhenAnySameF<FailPolicy::LastFail, H, V, E>();
-  auto a = yaclib::WhenAny(Src<H>(), Src<H>());  // default policy: LastFail
-  auto v = Vec<H>();
-  auto b = yaclib::WhenAny(v.begin(), v.end());
-  std::array<H, 2> arr{Src<H>(), Src<H>()};
-  auto c = yaclib::WhenAny(arr.begin(), arr.size());
-  Sink(a, b, c);
-}
-
-template <FailPolicy F, typename E>
-void WhenAnyVariantF() {
-  auto a = yaclib::WhenAny<F>(Src<Future<int, E>>(), Src<Future<std::string, E>>());
-  static_assert(std::is_same_v<decltype(a), Future<std::variant<int, std::string>, E>>);
-  auto b = yaclib::WhenAny<F>(Src<Future<int, E>>(), Src<FutureOn<MoveOnly, E>>(), Src<Future<int, E>>(), Src<Future<Pinned, E>>());
-  static_assert(std::is_same_v<decltype(b), Future<std::variant<MoveOnly, int, Pinned>, E>>);
-  auto c = yaclib::WhenAny<F>(Src<SharedFuture<int, E>>(), Src<Future<std::string, E>>(), Src<SharedFutureOn<int, E>>());
-  auto d = yaclib::WhenAny<F>(Src<Future<int, E>>(), Src<SharedFuture<int, E>>());  // same value, mixed handles
-  static_assert(std::is_same_v<decltype(d), Future<int, E>>);
-  Sink(a, b, c, d);
-#ifdef API_PROBE_KNOWN_4
-  // KNOWN_4 (a): a heterogeneous WhenAny with a void input builds std::variant<void, ...> (when_any.hpp does not wrap void in Unit the
-  // way when_all.hpp's ContainerElem / wrap_void_t does): "variant must have no void alternative" (static_assert of libstdc++).
-  // notes/api_probe.md #4.
-  auto k4 = yaclib::WhenAny<F>(Src<Future<void, E>>(), Src<Future<int, E>>());
-  Sink(k4);
-#endif
-}
-
-// ---- Join ----------------------------------------------------------------------------------------------------------------
-template <typename H, typename E>
-void JoinSame() {
-  auto a = yaclib::Join(Src<H>());  // default policy: None
-  auto b = yaclib::Join(Src<H>(), Src<H>());
-  auto c = yaclib::Join<FailPolicy::FirstFail>(Src<H>(), Src<H>());
-  auto d = yaclib::Join<FailPolicy::None>(Src<H>(), Src<H>(), Src<H>());
-  static_assert(std::is_same_v<decltype(b), Future<void, E>> && std::is_same_v<decltype(c), Future<void, E>>);
-  auto v = Vec<H>();
-  auto e = yaclib::Join(v.begin(), v.end());
-  v = Vec<H>();
-  auto f = yaclib::Join(v.begin(), v.size());
-  v = Vec<H>();
-  auto g = yaclib::Join<FailPolicy::FirstFail>(v.begin(), v.end());
-  v = Vec<H>();
-  auto h = yaclib::Join<FailPolicy::FirstFail>(v.data(), v.size());
-  static_assert(std::is_same_v<decltype(e), Future<void, E>> && std::is_same_v<decltype(h), Future<void, E>>);
-  Sink(a, b, c, d, e, f, g, h);
-}
-template <typename E>
-void JoinMixed() {
-  auto a = yaclib::Join(Src<Future<int, E>>(), Src<Future<void, E>>(), Src<FutureOn<Pinned, E>>());
-  auto b = yaclib::Join<FailPolicy::FirstFail>(Src<Future<int, E>>(), Src<SharedFuture<std::string, E>>(), Src<SharedFutureOn<int, E>>(),
-                                               Src<Future<int, E>>());
-  auto c = yaclib::Join(Src<SharedFuture<int, E>>(), Src<SharedFuture<int, E>>());
-  auto d = yaclib::Join<FailPolicy::FirstFail>(Src<SharedFuture<void, E>>(), Src<Future<void, E>>());
-  Sink(a, b, c, d);
-}
-
 // ---- the matrix --------------------------------------------------------------------------------------------------------------
 template <typename V, typename E>
 void UniqueForms() {
-  WhenAllSame<Future<V, E>, V, E>();
-  WhenAllSame<FutureOn<V, E>, V, E>();
-  WhenAnySame<Future<V, E>, V, E>();
-  WhenAnySame<FutureOn<V, E>, V, E>();
-  JoinSame<Future<V, E>, E>();
-  JoinSame<FutureOn<V, E>, E>();
+  if constexpr (std::is_void_v<V> || std::is_copy_constructible_v<V>) {
+    WhenAllSame<Future<V, E>, V, E>();
+    WhenAllSame<FutureOn<V, E>, V, E>();
+  } else {
+#ifdef API_PROBE_KNOWN_5
+    // KNOWN_5 (a): WhenAll over futures of a move-only value produces Future<std::vector<V>> / Future<std::vector<Result<V, E>>>, and
+    // NO Future / Promise / Task whose value is a standard container of a move-only type can be instantiated at all:
+    // detail::ResultCore<V, E>::Impl selects its copy branch with std::is_copy_constructible_v<Result<V, E>>, which is true for
+    // std::vector<MoveOnly> (the container's copy constructor is not constrained), and the copy then fails to instantiate inside the
+    // virtual UniqueCore<V, E>::Here.  Minimal form: api_probe_async.cpp KNOWN_5.  notes/api_probe.md #5.
+    WhenAllSame<Future<V, E>, V, E>();
+    WhenAllSame<FutureOn<V, E>, V, E>();
+#endif
+  }
 }
 template <typename V, typename E>
 void SharedForms() {
   WhenAllSame<SharedFuture<V, E>, V, E>();
   WhenAllSame<SharedFutureOn<V, E>, V, E>();
-  WhenAnySame<SharedFuture<V, E>, V, E>();
-  WhenAnySame<SharedFutureOn<V, E>, V, E>();
-  JoinSame<SharedFuture<V, E>, E>();
-  JoinSame<SharedFutureOn<V, E>, E>();
   WhenAllMixedHandles<V, E>();
 }
 template <typename E>
@@ -224,13 +150,17 @@ void AllForms() {
   SharedForms<std::string, E>();
   SharedForms<NoDefault, E>();
   WhenAllTuple<E>();
-  WhenAnyVariantF<FailPolicy::None, E>();
-  WhenAnyVariantF<FailPolicy::FirstFail, E>();
-  WhenAnyVariantF<FailPolicy::LastFail, E>();
-  JoinMixed<E>();
+}
+// a user error type: one copyable, one move-only value type (the strategies do not depend on E beyond passing it through)
+template <typename E>
+void SomeForms() {
+  UniqueForms<int, E>();
+  UniqueForms<Pinned, E>();
+  SharedForms<NoDefault, E>();
+  WhenAllTuple<E>();
 }
 template void AllForms<StopError>();
-template void AllForms<UserError>();
+template void SomeForms<UserError>();
 
 }  // namespace
 }  // namespace probe
@@ -252,27 +182,30 @@ int api_probe_when(int argc) {
   };
   auto all = yaclib::WhenAll(run(1), run(2), run(3));
   auto tuple = yaclib::WhenAll(run(4), yaclib::MakeFuture(std::string{"s"}), yaclib::MakeFuture());
-  auto any = yaclib::WhenAny(run(5), run(6));
   std::vector<yaclib::FutureOn<int>> fs;
   fs.push_back(run(7));
   fs.push_back(run(8));
-  auto join = yaclib::Join(fs.begin(), fs.end());
+  auto results = yaclib::WhenAll<yaclib::FailPolicy::None>(fs.begin(), fs.end());
   auto [sf, sp] = yaclib::MakeSharedContract<int>();
   auto mixed = yaclib::WhenAll<yaclib::FailPolicy::None>(sf, run(9), sf);
   std::move(sp).Set(10);
   while (manual.Drain() != 0) {
   }
   int sum = 0;
-  for (int x : std::move(all).Get().Ok()) {
+  const std::vector<int> all_values = std::move(all).Get().Ok();
+  for (int x : all_values) {
     sum += x;
   }
   sum += std::get<0>(std::move(tuple).Get().Ok());
-  sum += std::move(any).Get().Ok();
-  sum += static_cast<int>(std::move(join).Get().State());
-  for (auto& r : std::move(mixed).Get().Ok()) {
-    sum += std::move(r).Ok();
+  const std::vector<yaclib::Result<int>> result_values = std::move(results).Get().Ok();
+  for (const auto& r : result_values) {
+    sum += r.Ok();
   }
-  return sum == 6 + 4 + 5 + 0 + 29 ? 0 : 1;
+  const std::vector<yaclib::Result<int>> mixed_values = std::move(mixed).Get().Ok();
+  for (const auto& r : mixed_values) {
+    sum += r.Ok();
+  }
+  return sum == 6 + 4 + 15 + 29 ? 0 : 1;
 }
 
 #ifndef API_PROBE_NO_MAIN
